@@ -347,4 +347,4 @@ def check_emit(rep, fx):
             if not bad else 'fallible step(s) %s between length update and append: an error leaves them out of step' % bad, f.name, f.at(sb))
 
 # as-built addendum
-EXPLANATION += ' As built (DESIGN 9.2): R1 also: packers have no failure mode of their own and a reader accepts every width its packer produces; R2 also: a fresh capture buffer starts at length 0.'
+EXPLANATION += ' As built (DESIGN 9.2): R1 also: packers have no failure mode of their own and a reader accepts every width its packer produces; R2 also: a fresh capture buffer starts at length 0. R1 also: no error exit of a reader that scans the rest of the input depends on the shape of that rest alone.'
